@@ -205,9 +205,10 @@ class Report(object):
     """Collects, for one property, every obligation evaluated, and whether it
     was discharged.  A rule calls ``ok``/``bad`` once per rule instance."""
 
-    def __init__(self, prop, tier):
+    def __init__(self, prop, tier, quiet=False):
         self.prop = prop
         self.tier = tier
+        self.quiet = quiet      # self-test run: no output, no evidence
         self.obligations = []   # (rule, instance, text, ok)
         self.findings = []
         self.notes = []
@@ -292,6 +293,9 @@ def finish(report, program, explanation, not_decided, trusted=None,
     for f in report.findings:
         (old if f.key() in known_keys else new).append(f)
 
+    if report.quiet:
+        report.new_findings = new
+        return 1 if new else 0
     evdir = os.environ.get("RIGVERIF_EVDIR") or os.path.join(VERIF,
                                                              "evidence")
     os.makedirs(evdir, exist_ok=True)
